@@ -150,7 +150,8 @@ LoopCheckM(l, t) == LoopCheckFromM(l, t, {"check"})
 
 \* spoof.go: since f0fba2f `closed` is read into a local under the mutex together with the membership lookup (cl);
 \* a Close between the check and the action no longer changes what the loop does in this cycle
-LoopActM(l) ==
+\* auto: the harness observes a loop that finds closeChan already closed back at its check together with its frame
+LoopActM(l, auto) ==
   /\ loops[l].pc \in {"send", "correct"}
   /\ UNCHANGED <<hunt, closed, offer, hostOf, pend>>
   /\ IF loops[l].cl
@@ -159,7 +160,7 @@ LoopActM(l) ==
      ELSE IF loops[l].pc = "correct"
      THEN /\ loops' = [loops EXCEPT ![l].pc = "done"] /\ out' = <<Restore(loops[l].mac)>>
           /\ ev' = [kind |-> "act", l |-> l, done |-> TRUE]
-     ELSE /\ loops' = [loops EXCEPT ![l].pc = "wait"] /\ out' = <<Forged(loops[l].tgt)>>
+     ELSE /\ loops' = [loops EXCEPT ![l].pc = IF auto /\ closed THEN "check" ELSE "wait"] /\ out' = <<Forged(loops[l].tgt)>>
           /\ ev' = [kind |-> "act", l |-> l, done |-> FALSE]
 
 \* the 6 s ticker fires / closeChan is closed
@@ -268,7 +269,7 @@ StopHunt(m)      == StopHuntM(m) /\ StopHuntR(m)
 Close            == CloseM /\ CloseR
 Offer(m, ip)     == OfferM(m, ip) /\ OfferR(m, ip)
 LoopCheck(l, t)  == LoopCheckM(l, t) /\ LoopCheckR(l)
-LoopAct(l)       == LoopActM(l) /\ LoopActR(l)
+LoopAct(l)       == LoopActM(l, FALSE) /\ LoopActR(l)
 Tick(l)          == TickM(l) /\ IdleR
 WakeOnClose(l)   == WakeOnCloseM(l) /\ IdleR
 Recv(op, es, sm, si, ti) == RecvM(op, es, sm, si, ti) /\ RecvR
